@@ -144,7 +144,23 @@ func (r *Run) mergeInputs(fi *prog.FuncInfo, call *ast.CallExpr) (producers []*t
 			}
 		}
 	}
-	producerOf := func(e ast.Expr) *types.Func {
+	var producerOf func(e ast.Expr) *types.Func
+	producerOf = func(e ast.Expr) *types.Func {
+		// an immediately invoked literal that hands its parameter back unchanged is transparent
+		if c, ok := ast.Unparen(e).(*ast.CallExpr); ok && len(c.Args) == 1 {
+			if lit, ok := ast.Unparen(c.Fun).(*ast.FuncLit); ok && len(lit.Body.List) == 1 && lit.Type.Params != nil && len(lit.Type.Params.List) == 1 && len(lit.Type.Params.List[0].Names) == 1 {
+				if ret, ok := lit.Body.List[0].(*ast.ReturnStmt); ok && len(ret.Results) == 1 && prog.IdentObjPlain(info, ret.Results[0]) == info.Defs[lit.Type.Params.List[0].Names[0]] {
+					return producerOf(c.Args[0])
+				}
+			}
+		}
+		// a call is its own producer (also a call of an extracted wrapper such as a filter around the
+		// scan: whether that wrapper keeps tombstones is decided from its body)
+		if c, ok := ast.Unparen(e).(*ast.CallExpr); ok {
+			if fn := r.P.CalleeFunc(info, c); fn != nil {
+				return fn
+			}
+		}
 		e = resolveLocal(info, fi.Decl.Body, e)
 		if c, ok := ast.Unparen(e).(*ast.CallExpr); ok {
 			return r.P.CalleeFunc(info, c)
